@@ -251,6 +251,20 @@ pub fn run(ctx: &mut Ctx) -> (&'static str, String, bool) {
             match real_decode(&f, true) {
                 Dec::Packet(pk, _) => {
                     let dbg = format!("{:?}", pk);
+                    // a mod never prints as a car: not as one of the accepted built-in names, not as "Unknown"
+                    if let insim::Packet::Mal(m) = &pk {
+                        for v in m.iter() {
+                            let shown = v.to_string();
+                            if !v.is_mod() || names.iter().any(|n| shown.as_bytes() == &n[..]) || shown.eq_ignore_ascii_case("unknown") {
+                                p.violation(
+                                    "C13/mal/mod-prints-as-a-car",
+                                    format!("a mod id from IS_MAL is shown as {:?} (Debug {:?}, is_mod {})", shown, v, v.is_mod()),
+                                    replay.clone(),
+                                );
+                                break;
+                            }
+                        }
+                    }
                     let mods = dbg.to_uppercase().matches("MOD(").count(); // Vehicle's Debug prints MOD(hex id)
                     if mods != n {
                         p.violation(
